@@ -72,7 +72,7 @@ def intron_record(rng, world, gene, tx):
     return dict(gene=gene['id'], pos=gi + 1, id='SNV-%d-%s-%s' % (gi + 1, ref, alt), ref=ref, alt=alt, tx=tx['id'],
                 chrom=gene['chrom'], gpos=g + 1, symbol=gene['name'])
 
-def gen_world_case(rng, max_tx=7, p_intronic=0.3):
+def gen_world_case(rng, max_tx=7, p_intronic=0.3, cluster_p=0.0, nrec=(1, 1, 2, 3)):
     for _ in range(50):
         world = G.gen_world(rng, n_chrom=1, max_genes=rng.choice([2, 3, 4]), small=True, sec_p=0.0, nf_p=0.05, multi_iso_p=0.7)
         txs = [(g, t) for g in world['genes'] for t in g['transcripts']]
@@ -99,12 +99,16 @@ def gen_world_case(rng, max_tx=7, p_intronic=0.3):
         n = G.tx_len(tx)
         lo, hi = (tx['cds'][0] + 3, max(tx['cds'][0] + 4, tx['cds'][1] - 3)) if tx['cds'] else (1, n - 1)
         used = set()
-        for _k in range(rng.choice([1, 1, 2, 3])):
-            ti = rng.randrange(lo, max(lo + 1, min(hi, n - 1)))
-            if any(abs(ti - u) < 6 for u in used):
+        clustered = rng.random() < cluster_p
+        for _k in range(rng.choice(nrec)):
+            if clustered and used:      # two or three SNVs inside one tryptic peptide: 3-9 nt apart
+                ti = min(max(lo, max(used) + rng.choice([3, 4, 6, 9])), max(lo, min(hi, n - 1) - 1))
+            else:
+                ti = rng.randrange(lo, max(lo + 1, min(hi, n - 1)))
+            if any(abs(ti - u) < (3 if clustered else 6) for u in used):
                 continue
             used.add(ti)
-            records.append(mk_record(rng, world, gene, tx, ti, rng.choice(['snv', 'snv', 'snv', 'del', 'ins'])))
+            records.append(mk_record(rng, world, gene, tx, ti, 'snv' if clustered else rng.choice(['snv', 'snv', 'snv', 'del', 'ins'])))
         plan[tx['id']] = 'exonic'
     # distinct records only (the same record id for the same transcript twice is the same record)
     seen, uniq = set(), []
@@ -113,6 +117,143 @@ def gen_world_case(rng, max_tx=7, p_intronic=0.3):
         if k not in seen:
             seen.add(k); uniq.append(r)
     return dict(world=world_texts(world), records=uniq, plan=plan)
+
+NOCUT = 'ADEFGHNQSTVWYLIC'
+
+def gen_paralog_case(rng):
+    """World with paralogous coding genes: gene B's protein is gene A's protein with one residue replaced, and the
+    GVF holds exactly the SNV of A that produces that residue, so A's variant peptides across that residue are
+    canonical peptides of ANOTHER protein (B) and must be filtered whatever the reference form.  Proteins are made
+    of tryptic peptides of 6-38 residues (so some exceed the default --max-length 25); a second, ordinary SNV
+    elsewhere and a third gene give peptides that must be reported."""
+    def protein():
+        p = 'M'
+        for _ in range(rng.randint(4, 7)):
+            p += ''.join(rng.choice(NOCUT) for _ in range(rng.choice([5, 8, 12, 20, 26, 28, 31, 37]))) + rng.choice('KR')
+        return p + ''.join(rng.choice(NOCUT) for _ in range(rng.randint(6, 12)))
+    protA = protein()
+    dnaA = G.backtranslate(rng, protA)
+    # residue to replace: inside a long peptide if there is one; a codon with a single-base neighbour coding
+    # another NOCUT residue
+    cands = []
+    for k in range(2, len(protA) - 2):
+        cod = dnaA[3 * k:3 * k + 3]
+        for j in range(3):
+            for b in 'ACGT':
+                if b != cod[j]:
+                    new = cod[:j] + b + cod[j + 1:]
+                    aa = G.CODON[new]
+                    if aa != protA[k] and aa in NOCUT and protA[k] in NOCUT:
+                        cands.append((k, j, b, aa))
+    import re as _re
+    spans, a0 = {}, 0
+    for seg in _re.split('(?<=[KR])', protA):
+        for x in range(a0, a0 + len(seg)):
+            spans[x] = len(seg)
+        a0 += len(seg)
+    long_c = [c_ for c_ in cands if spans.get(c_[0], 0) >= 26]
+    k, j, b, aa = rng.choice(long_c if long_c and rng.random() < 0.75 else cands)
+    dnaB = dnaA[:3 * k + j] + b + dnaA[3 * k + j + 1:]
+    protC = protein()
+    world = {'chroms': {}, 'genes': []}
+    chrom, pos = [], rng.randint(20, 50)
+    specs = [('A', dnaA), ('B', dnaB), ('C', G.backtranslate(rng, protC))]
+    rng.shuffle(specs)
+    placed = {}
+    for gi, (name, cds) in enumerate(specs):
+        u5, u3 = rng.randint(9, 40), rng.randint(9, 40)
+        text = ''.join(rng.choice('CT') for _ in range(u5)) + cds + rng.choice(['TAA', 'TAG']) + ''.join(rng.choice('CT') for _ in range(u3))
+        n = len(text)
+        # 1-3 exons: cut the transcript at random points, introns of 5-30 nt
+        cuts = sorted(rng.sample(range(12, n - 12), rng.choice([0, 1, 2])))
+        exons, p0, last = [], pos, 0
+        for c_ in cuts + [n]:
+            exons.append([p0, p0 + (c_ - last)])
+            p0 += (c_ - last) + rng.randint(5, 30)
+            last = c_
+        strand = rng.choice([1, -1])
+        gene = {'id': 'ENSG%011d.1' % (gi + 1), 'name': 'PARA' + name, 'chrom': 'chr1', 'strand': strand, 'biotype': 'protein_coding',
+                'start': exons[0][0], 'end': exons[-1][1], 'transcripts': []}
+        tx = {'id': 'ENST%011d.1' % ((gi + 1) * 10), 'protein_id': 'ENSP%011d.1' % ((gi + 1) * 10), 'exons': exons,
+              'cds': [u5, u5 + len(cds)], 'frame': 0, 'tags': [], 'sec': [], 'utr': rng.random() < 0.5, 'biotype': 'protein_coding',
+              'cds_feature_start': u5}
+        gene['transcripts'].append(tx)
+        end = exons[-1][1]
+        while len(chrom) < end + 60:
+            chrom.append(rng.choice('ACGT'))
+        G._write_into(chrom, gene, exons, 0, text)
+        world['genes'].append(gene)
+        placed[name] = (gene, tx, u5)
+        pos = end + rng.randint(20, 60)
+    world['chroms']['chr1'] = ''.join(chrom)
+    gA, tA, u5A = placed['A']
+    gs = G.gene_seq(world, gA)
+    def snv(gene, tx, ti, alt=None):
+        gi_ = G.g2gene(gene, G.tx2g(gene, tx, ti))
+        g_seq = G.gene_seq(world, gene)
+        ref = g_seq[gi_]
+        alt = alt or rng.choice([x for x in 'ACGT' if x != ref])
+        return dict(gene=gene['id'], pos=gi_ + 1, id='SNV-%d-%s-%s' % (gi_ + 1, ref, alt), ref=ref, alt=alt, tx=tx['id'],
+                    chrom=gene['chrom'], gpos=G.tx2g(gene, tx, ti) + 1, symbol=gene['name'])
+    records = [snv(gA, tA, u5A + 3 * k + j, b)]
+    # an ordinary SNV in A far from the first one, and one in C
+    far = [x for x in range(3, len(protA) - 2) if abs(x - k) > 45]
+    if far:
+        records.append(snv(gA, tA, u5A + 3 * rng.choice(far) + rng.choice([0, 1])))
+    gC, tC, u5C = placed['C']
+    records.append(snv(gC, tC, u5C + 3 * rng.randint(3, len(protC) - 3) + rng.choice([0, 1])))
+    if rng.random() < 0.5:
+        records.append(snv(gC, tC, u5C + 3 * rng.randint(3, len(protC) - 3) + 2))
+    seen, uniq = set(), []
+    for r in records:
+        if (r['tx'], r['pos']) not in seen:
+            seen.add((r['tx'], r['pos'])); uniq.append(r)
+    return dict(world=world_texts(world), records=uniq, plan={t['id']: 'exonic' for g in world['genes'] for t in g['transcripts']},
+                paralog=dict(residue=k, peptide_len=spans[k]))
+
+def single_file_layouts(rng, records):
+    """layouts in ONE file in which a transcript's records form several non-adjacent blocks:
+    gene-sorted (CHROM = gene id, POS) as the gene-based parsers write, and round-robin over the transcripts"""
+    gs = sorted(records, key=lambda r: (r['gene'], r['pos'], r['tx']))
+    by = collections.OrderedDict()
+    for r in records:
+        by.setdefault(r['tx'], []).append(r)
+    rr, lists = [], [list(v) for v in by.values()]
+    while any(lists):
+        for l in lists:
+            if l:
+                rr.append(l.pop(0))
+    return {'gene-sorted': gs, 'round-robin': rr}
+
+def n_split_blocks(records):
+    """number of transcripts whose records are NOT contiguous in this file order"""
+    blocks = collections.Counter()
+    prev = None
+    for r in records:
+        if r['tx'] != prev:
+            blocks[r['tx']] += 1
+            prev = r['tx']
+    return sum(1 for v in blocks.values() if v > 1)
+
+def gen_cleavage_args(rng):
+    """non-default cleavage parameters (the same for generateIndex and callVariant)"""
+    if rng.random() < 0.2:
+        return []
+    a = []
+    if rng.random() < 0.75:
+        a += ['--max-length', rng.choice([26, 28, 30, 33, 36, 40])]
+    if rng.random() < 0.5:
+        a += ['--min-length', rng.choice([5, 6, 8, 9])]
+    if rng.random() < 0.5:
+        a += ['--miscleavage', rng.choice([0, 1, 3])]
+    if rng.random() < 0.4:
+        a += ['--min-mw', rng.choice([300.5, 700.5, 900.5])]
+    if rng.random() < 0.3:
+        a += ['--cleavage-rule', rng.choice(ENZYMES)]
+    return a
+
+# enzymes other than trypsin offered to the strict stream (rules with look-ahead / look-behind included)
+ENZYMES = ['lysc', 'arg-c', 'chymotrypsin high specificity', 'asp-n', 'lysn', 'glutamyl endopeptidase']
 
 def partitions(rng, records):
     """three layouts of the same records: split into files, file order, record order"""
@@ -161,6 +302,22 @@ def loop_cases(rng, quick):
             for th in (1, 3):
                 cases.append(dict(kind='loop', wid=wi, world=w['world'], gvfs=[gvf_text(w['records'])], threads=th,
                                   force_skip=[], noncanonical=True, plan=w['plan']))
+    # retry path: the first attempt of chosen transcripts raises TimeoutError inside the worker; caller_reducer
+    # retries them with the next (smaller) --max-variants-per-node / --additional-variants-per-misc.  Transcripts
+    # carry 2-3 SNVs inside one tryptic peptide, so lowered limits change their peptides: if the lowered limits
+    # of a timed-out transcript reached OTHER transcripts (shared CleavageParams object) only in some thread
+    # configuration, the peptide set would depend on --threads.
+    for wi in range(25 if quick else 250):
+        w = gen_world_case(rng, max_tx=rng.choice([3, 4, 5, 6]), p_intronic=0.1, cluster_p=0.8, nrec=(2, 3, 3))
+        txs = sorted(t for t, v in w['plan'].items() if v == 'exonic')
+        if len(txs) < 2:
+            continue
+        for _ in range(2):
+            to = rng.sample(txs, rng.choice([1, 1, 2]))
+            for th in (1, 2, 3):
+                cases.append(dict(kind='loop', wid='to%d' % wi, world=w['world'], gvfs=[gvf_text(w['records'])], threads=th,
+                                  force_skip=[], noncanonical=False, plan=w['plan'], timeout_tx=sorted(to),
+                                  call_args=['--max-variants-per-node', 7, 1, '--additional-variants-per-misc', 2, 0]))
     return cases
 
 def model_batches(variant, threads, gathered, ids):
@@ -182,7 +339,7 @@ def eval_loop(ctx, cases, variant):
     ref = {}
     for c, r in zip(cases, impl):       # reference peptide sets: threads == 1
         if c['threads'] == 1 and isinstance(r, dict) and 'peptides' in r:
-            ref[(c['wid'], tuple(c['force_skip']), c['noncanonical'])] = r['peptides']
+            ref[(c['wid'], tuple(c['force_skip']), c['noncanonical'], tuple(c.get('timeout_tx', [])))] = r['peptides']
     for c, r, ids in zip(cases, impl, idmaps):
         small = {k: v for k, v in c.items() if k not in ('world', 'gvfs')}
         if ids is None:
@@ -200,9 +357,18 @@ def eval_loop(ctx, cases, variant):
         stats['loop/skipped=%s' % ('0' if nskip == 0 else '1' if nskip == 1 else '2+')] += 1
         same_model = (r['batches'] == mb)
         ok_prop = (got == want)
-        rp = ref.get((c['wid'], tuple(c['force_skip']), c['noncanonical']))
+        rp = ref.get((c['wid'], tuple(c['force_skip']), c['noncanonical'], tuple(c.get('timeout_tx', []))))
+        if c.get('timeout_tx'):
+            stats['loop/forced-timeout'] += 1
+            # did the lowered limits of a retried transcript reach the first attempt of another transcript?
+            first = {}
+            for tx, mv, av in r.get('attempts', []):
+                first.setdefault(tx, (mv, av))
+            leaked = sorted(t for t, (mv, av) in first.items() if (mv, av) != (7, 2))
+            if leaked:
+                stats['loop:retry-limits-leaked'] += 1
         ok_pep = (rp is None or rp == r['peptides'])
-        rep = {'kind': 'case', 'case': c, 'impl': {k: r[k] for k in ('batches', 'gathered', 'peptides')},
+        rep = {'kind': 'case', 'case': c, 'impl': {k: r.get(k) for k in ('batches', 'gathered', 'peptides', 'attempts')},
                'model_batches': mb, 'model_never_flushed': pending, 'peptides_threads1': rp}
         if ok_prop and ok_pep and same_model:
             stats['loop:agree'] += 1
@@ -212,9 +378,18 @@ def eval_loop(ctx, cases, variant):
                   want == got + pending and (ok_pep or not ok_prop))
             stats['loop:property-fails' + ('(D3)' if d3 else '')] += 1
             lost = [t for t in want if t not in got]
-            viol.append(dict(what='--threads %d, %d of %d transcripts skipped: dispatched batches %s but %s had a dispatch; never dispatched: %s; '
-                                  'peptides %d vs %d with --threads 1' % (c['threads'], nskip, len(r['gathered']), r['batches'], want, lost,
-                                                                         len(r['peptides'] or []), len(rp or [])),
+            extra = ''
+            if c.get('timeout_tx'):
+                extra = '; forced timeout of %s, first-attempt limits per transcript %s' % (c['timeout_tx'], r.get('attempts'))
+            if ok_prop:
+                what = ('--threads %d: every non-skipped transcript is dispatched once (batches %s) but the peptide set differs from the '
+                        '--threads 1 run of the same input: %d vs %d peptides%s' % (c['threads'], r['batches'], len(r['peptides'] or []),
+                                                                                   len(rp or []), extra))
+            else:
+                what = ('--threads %d, %d of %d transcripts skipped: dispatched batches %s but %s had a dispatch; never dispatched: %s; '
+                        'peptides %d vs %d with --threads 1%s' % (c['threads'], nskip, len(r['gathered']), r['batches'], want, lost,
+                                                                  len(r['peptides'] or []), len(rp or []), extra))
+            viol.append(dict(what=what,
                              replay_obj=rep, no_input=False, finding='D3' if d3 else None,
                              _size=len(r['gathered']) * 10 + c['threads']))
         else:
@@ -227,29 +402,39 @@ def eval_loop(ctx, cases, variant):
 # ----------------------------------------------------------------------------- stream (ii)
 def cli_cases(rng, quick):
     groups = []
-    n_worlds = 10 if quick else 60
+    n_worlds = 14 if quick else 80
     for wi in range(n_worlds):
-        w = gen_world_case(rng, max_tx=7, p_intronic=0.25)
+        paralog = (wi % 2 == 1)
+        w = gen_paralog_case(rng) if paralog else gen_world_case(rng, max_tx=7, p_intronic=0.25, nrec=(2, 2, 3, 4))
         if len(w['records']) < 2:
             continue
-        base = dict(kind='cli', wid=wi, world=w['world'], threads=1, gvf_idx=False, index_dir=False, noncanonical=False)
+        cargs = gen_cleavage_args(rng)
+        if paralog and '--max-length' not in cargs and rng.random() < 0.8:
+            cargs = cargs + ['--max-length', rng.choice([30, 36, 40])]
+        base = dict(kind='cli', wid=wi, world=w['world'], threads=1, gvf_idx=False, index_dir=False, noncanonical=False,
+                    cleavage_args=cargs, paralog=w.get('paralog'))
         one = [gvf_text(w['records'])]
         lays = partitions(rng, w['records'])
+        singles = single_file_layouts(rng, w['records'])
         variants = [('baseline', dict(base, gvfs=one), '0')]
         for k, lay in enumerate(lays):
             variants.append(('layout%d' % (k + 1), dict(base, gvfs=lay), '0'))
         variants.append(('gvf-idx', dict(base, gvfs=lays[0], gvf_idx=True), '0'))
+        variants.append(('layout3+gvf-idx', dict(base, gvfs=lays[2], gvf_idx=True), '0'))
+        for nm, recs in singles.items():       # several non-adjacent blocks of a transcript inside one file
+            sb = n_split_blocks(recs)
+            variants.append((nm, dict(base, gvfs=[gvf_text(recs)], split_blocks=sb), '0'))
+            variants.append((nm + '+gvf-idx', dict(base, gvfs=[gvf_text(recs)], gvf_idx=True, split_blocks=sb), '0'))
         variants.append(('index-dir', dict(base, gvfs=one, index_dir=True), '0'))
         variants.append(('hashseed-1', dict(base, gvfs=lays[2]), '1'))
         variants.append(('hashseed-31337', dict(base, gvfs=one), '31337'))
         for th in ((2, 3) if quick or wi % 2 else (2, 3, 4)):
             variants.append(('threads%d' % th, dict(base, gvfs=one, threads=th), '0'))
-            # the same configuration observed through the serial pool (which batches were dispatched)
             variants.append(('threads%d-observed' % th, dict(base, gvfs=one, threads=th, kind='loop', force_skip=[]), '0'))
         if wi % 3 == 0:
-            comb = dict(base, gvfs=lays[1], threads=2, gvf_idx=True, index_dir=True)
-            variants.append(('threads2+layout+idx+index', comb, '7'))
-            variants.append(('threads2+layout+idx+index-observed', dict(comb, kind='loop', force_skip=[]), '0'))
+            comb = dict(base, gvfs=[gvf_text(singles['gene-sorted'])], threads=2, gvf_idx=True, index_dir=True)
+            variants.append(('threads2+gene-sorted+idx+index', comb, '7'))
+            variants.append(('threads2+gene-sorted+idx+index-observed', dict(comb, kind='loop', force_skip=[]), '0'))
         groups.append((wi, w, variants))
     # small separate stream with the cleavage exception ON (--cleavage-exception auto = trypsin_exception):
     # callVariant is known to be run-to-run non-deterministic there on dense inputs (finding D14), so a
@@ -279,6 +464,17 @@ def eval_cli(ctx, groups, variant):
     viol, stats = [], collections.Counter()
     for wi, w, vs in groups:
         base = results[(wi, 'baseline')]
+        if (not isinstance(base, dict) or 'peptides' not in base) and '--cleavage-rule' in vs[0][1].get('cleavage_args', []):
+            # the engine aborts for this enzyme on this input whatever the layout (not C06's statement): all variants
+            # must then abort as well - a variant that succeeds where the baseline aborts is reported
+            stats['cli:baseline-aborts(non-trypsin enzyme)'] += 1
+            for name, c, hs in vs:
+                r = results[(wi, name)]
+                if isinstance(r, dict) and r.get('peptides') is not None:
+                    viol.append(dict(what='variant %s succeeds where the baseline aborts (%s)' % (name, str(base)[:120]),
+                                     replay_obj={'kind': 'cli', 'variant': name, 'hashseed': hs, 'case': c, 'baseline_case': vs[0][1]},
+                                     no_input=False))
+            continue
         if not isinstance(base, dict) or 'peptides' not in base:
             viol.append(dict(what='baseline callVariant run failed: %s' % str(base)[:200],
                              replay_obj={'kind': 'cli', 'case': vs[0][1], 'impl': base}, no_input=False))
@@ -288,6 +484,10 @@ def eval_cli(ctx, groups, variant):
                 continue
             r = results[(wi, name)]
             stats['cli%s/' % ('-excON' if c.get('exc') == 'auto' else '') + name.rstrip('0123456789')] += 1
+            if c.get('split_blocks'):
+                stats['cli:file with non-adjacent blocks of a transcript' + ('+idx' if c.get('gvf_idx') else '')] += 1
+            if c.get('index_dir') and c.get('paralog') and '--max-length' in c.get('cleavage_args', []) and c['paralog']['peptide_len'] > 25:
+                stats['cli:index-dir, paralog peptide > 25 aa, --max-length > 25'] += 1
             if isinstance(r, dict) and r.get('peptides') == base['peptides']:
                 stats['cli:equal'] += 1
                 continue
